@@ -1075,4 +1075,133 @@ theorem nodup_solveRec (lt : Var → Var → Bool) (cons : List (Constraint Var 
             (keys_solveRec lt cons fuel) cons var (hK ▸ (selectVar_some hsel).2) asg _ st
             (nodup_reverse' (hi var d hd)) hi hK
 
+
+/-! ## `__iter__`: the one-variable constraints -/
+
+theorem preprocess_cons : ∀ (cs : List (Constraint Var Val)) (st : Store Var Val),
+    (preprocess cs st).1 = cs.filter fun c => c.scope.length != 1
+  | [], _ => rfl
+  | c :: cs, st => by
+      unfold preprocess
+      split
+      · next x hx => rw [preprocess_cons cs]; simp [List.filter_cons, hx]
+      · next hx =>
+        have : (c.scope.length != 1) = true := by
+          cases hsc : c.scope with
+          | nil => simp
+          | cons y ys =>
+            cases ys with
+            | nil => exact absurd hsc (hx y)
+            | cons _ _ => simp
+        simp only [List.filter_cons, this, if_true, preprocess_cons cs st]
+
+theorem keys_preprocess : ∀ (cs : List (Constraint Var Val)) (st : Store Var Val),
+    (preprocess cs st).2.map Prod.fst = st.map Prod.fst
+  | [], _ => rfl
+  | c :: cs, st => by
+      unfold preprocess
+      split
+      · rw [keys_preprocess cs, keys_modify]
+      · exact keys_preprocess cs st
+
+theorem preprocess_lookup (x : Var) : ∀ (cs : List (Constraint Var Val)) (st : Store Var Val),
+    (preprocess cs st).2.lookup x = (st.lookup x).map fun d => { d with vis := d.vis.filter (unaryOk cs x) }
+  | [], st => by
+      unfold preprocess
+      cases st.lookup x with
+      | none => rfl
+      | some d =>
+        cases d
+        have : ∀ l : List Val, l.filter (unaryOk ([] : List (Constraint Var Val)) x) = l := by
+          intro l; apply List.filter_eq_self.mpr; intro w _; simp [unaryOk]
+        simp [this]
+  | c :: cs, st => by
+      unfold preprocess
+      split
+      · next y hy =>
+        rw [preprocess_lookup x cs, lookup_modify]
+        cases st.lookup x with
+        | none => rfl
+        | some d =>
+          simp only [Option.map_some, Option.some.injEq]
+          by_cases hxy : x = y
+          · subst hxy
+            simp only [if_true, foldl_erase_filter, List.filter_filter]
+            congr 1
+            apply List.filter_congr
+            intro w _
+            simp [unaryOk, hy, unaryBad, Bool.and_comm]
+          · simp only [hxy, if_false]
+            congr 1
+            apply List.filter_congr
+            intro w _
+            have : ¬ ([y] = [x]) := by simpa using fun e => hxy e.symm
+            simp [unaryOk, hy, this]
+      · next hx =>
+        simp only
+        rw [preprocess_lookup x cs st]
+        cases st.lookup x with
+        | none => rfl
+        | some d =>
+          simp only [Option.map_some, Option.some.injEq]
+          congr 1
+          apply List.filter_congr
+          intro w _
+          have : ¬ (c.scope = [x]) := hx x
+          simp only [unaryOk, List.all_cons, this, decide_false, Bool.not_false, Bool.true_or, Bool.true_and]
+
+theorem lookup_initStore (x : Var) : ∀ vars : List (Var × List Val),
+    (initStore vars).lookup x = (vars.lookup x).map fun dom => ({ vis := dom } : Dom Val)
+  | [] => rfl
+  | (k, dom) :: rest => by
+      have ih := lookup_initStore x rest
+      unfold initStore at ih ⊢
+      by_cases hk : x = k
+      · subst hk; simp [List.lookup_cons]
+      · have hk' : (x == k) = false := by simpa using hk
+        simp [List.lookup_cons, hk', ih]
+
+theorem keys_initStore (vars : List (Var × List Val)) : (initStore vars).map Prod.fst = vars.map Prod.fst := by
+  simp [initStore, List.map_map, Function.comp_def]
+
+/-- the store the search starts from -/
+theorem start_lookup (P : Problem Var Val) (x : Var) (d : Dom Val)
+    (h : (preprocess P.cons (initStore P.vars)).2.lookup x = some d) :
+    d.vis = P.domain x ∧ ∃ dom, P.vars.lookup x = some dom := by
+  rw [preprocess_lookup, lookup_initStore] at h
+  cases hv : P.vars.lookup x with
+  | none => rw [hv] at h; simp at h
+  | some dom =>
+    rw [hv] at h
+    simp only [Option.map_some, Option.some.injEq] at h
+    refine ⟨?_, dom, rfl⟩
+    rw [← h]; simp [Problem.domain, hv]
+
+theorem start_keys (P : Problem Var Val) : (preprocess P.cons (initStore P.vars)).2.map Prod.fst = P.keys := by
+  rw [keys_preprocess, keys_initStore]; rfl
+
+theorem unaryOk_of_sat {cs : List (Constraint Var Val)} {a : Var → Val} (h : ∀ c ∈ cs, c.pred (restr c.scope a) = true)
+    (x : Var) : unaryOk cs x (a x) = true := by
+  unfold unaryOk
+  rw [List.all_eq_true]
+  intro c hc
+  by_cases hs : c.scope = [x]
+  · have : known c.scope [(x, a x)] = restr c.scope a := by
+      funext z
+      unfold known restr
+      by_cases hz : z ∈ c.scope
+      · have : z = x := by rw [hs] at hz; simpa using hz
+        subst this; simp [hz, List.lookup_cons]
+      · simp [hz]
+    rw [this, h c hc]; simp
+  · simp [hs]
+
+theorem blocks_empty (R : Val → Asg Var Val → Prop) : ∀ vals : List Val, Blocks R vals (vals.map fun _ => [])
+  | [] => .nil
+  | _ :: vs => .cons (by simp) (blocks_empty R vs)
+
+theorem flatten_map_nil {α β : Type} : ∀ vals : List α, ((vals.map fun _ => ([] : List β))).flatten = []
+  | [] => rfl
+  | _ :: vs => by simp [flatten_map_nil vs]
+
 end Pkgcore.C10.Solver
